@@ -347,8 +347,16 @@ CHECKS = {
             "worst member' is claimed for evaluations where similar individuals carry equal fitness. The heap-level theorems assume what C16's clone theorems assume of "
             "the submitted individuals (acyclic, within the recursion bound, CopyOK: the side conditions of DEAP's copy hooks), an instance attribute fitness, a similarity "
             "that is a function of the two individuals' pure values and fitnesses, and a caller that holds no reference into the archive's own copies (EvOK); that CPython's "
-            "deepcopy dispatches to the modelled hooks is the correspondence (here and in C16). IEEE products of the test inputs exact.",
-            "Lean 4 proof over hand-written models (pure archive + heap-level archive composed with C16's deepcopy model) + differential correspondence + oracle"),
+            "deepcopy dispatches to the modelled hooks is the correspondence (here and in C16). IEEE products of the test inputs exact. "
+            "TRANSLATOR TIE (round 9): harness/py2lean_c08.py renders the methods of HallOfFame / ParetoFront from the CURRENT deap/tools/support.py as state-passing "
+            "Lean definitions Gen08.<Class>_<method> (exceptions as Option, for / break / continue / for-else as G8.forLoop, index arithmetic in Int with Python's negative-index, "
+            "IndexError, ZeroDivisionError and list.insert clamping rules, deepcopy as the model's copy parameter, bisect_right as Archive.bisectRight; rules = its docstring + "
+            "Core/GenPreludeC08.lean, trusted); 9 methods (__len__, __getitem__, __iter__, __reversed__, insert, remove, clear, HallOfFame.update, ParetoFront.update) are regenerated "
+            "on every run and kernel-checked equal to Core/Archive.lean on all inputs with len(keys) = len(items) (GenEq/C08.lean.tmpl, 10 theorems Gen08.*_eq_model; outside "
+            "len(keys) = len(items) - unreachable by C08.mirror / pf_mirror - Python's negative index / IndexError and the model's truncated subtraction differ); __init__ and __str__ "
+            "are refused and listed (evidence/C08.translated.json).",
+            "Lean 4 proof over hand-written models (pure archive + heap-level archive composed with C16's deepcopy model) + differential correspondence + oracle "
+            "+ translator tie (definitions regenerated from source, kernel-checked equal to the model)"),
     "C11": ("full",
             "Lean theorems (C11.complete_iff(+_count), typed_iff, searchSubtree_span (any Python index -len<=i<len; _span_nat/_index/_total), height_eq/height_deepest, "
             "splice_welltyped/_complete, gen_full/gen_grow/gen_half/gen_ramped, cx_closed, cxlb_closed, mutUniform_closed, nodeRepl_closed, ephemeral_closed, "
